@@ -103,7 +103,7 @@ def run_leb(chk, d, repo, broken):
     # UB flag of the model vs UBSan verdict (one forked child per line, so only a subset): every line the model
     # flags (up to a cap) and as many it does not flag, biased to long signed encodings
     flagged = [i for i in range(len(cases)) if model[i].split()[2] == "1"]
-    cap = 1500 if chk.tier == "quick" else 20000
+    cap = 1500 if chk.tier == "quick" else 8000
     chk.rng.shuffle(flagged)
     flagged = flagged[:cap]
     clean_long = [i for i, (k, bs) in enumerate(cases) if model[i].split()[2] == "0" and k[0] == "i" and len(bs) >= 4]
@@ -296,7 +296,7 @@ def run_modules(chk, d, repo, broken):
     chk.coverage["real_outcome_histogram"] = dict(err_hist.most_common(40))
     chk.coverage["corpus_files"] = len(corpus)
     # sanitizer verdict <-> model `ub` on a subset (instrumented reader is slower)
-    sub = [i for i in range(len(allcases)) if allcases[i][0] != "corpus"][:: (7 if tier == "quick" else 2)]
+    sub = [i for i in range(len(allcases)) if allcases[i][0] != "corpus"][:: (7 if tier == "quick" else 6)]
     sub += [i for i in range(len(allcases)) if allcases[i][0] == "witness" and i not in sub]
     slines = [rd.line_for(allcases[i][2], allcases[i][3], True) for i in sub]
     sreal, reports = rd.run_lines(exe_san, slines, sanitized=True)
